@@ -52,12 +52,12 @@ for sid in ids:
     if demos:
         demo=demos[0]; stem=os.path.basename(demo)[:-3]
         src=open(demo).read()
-        crate='zvt_feig_terminal' if 'zvt_feig_terminal' in src or 'zvt_verif' in src else ('zvt_builder' if prop in ('C16','C17') else 'zvt')
+        crate='zvt_feig_terminal' if 'zvt_feig_terminal' in src or 'zvt_verif' in src else ('zvt_builder' if (prop in ('C16','C17') and 'use zvt::' not in src and 'zvt::' not in src) else 'zvt')
         feat=' --features zvt_verif' if crate=='zvt_feig_terminal' else ''
         cmd=f'cargo test -p {crate}{feat} --test {stem} --offline'
         def run_demo():
             shutil.copy(demo, f'{WT}/{crate}/tests/' if os.path.isdir(f'{WT}/{crate}/tests') else (os.makedirs(f'{WT}/{crate}/tests') or f'{WT}/{crate}/tests/'))
-            if prop=='C10':
+            if prop=='C10' or 'start_paused' in src or 'test-util' in open(f'{d}/demo/RUN.md').read():
                 t=open(f'{WT}/zvt_feig_terminal/Cargo.toml').read()
                 if 'test-util' not in t:
                     open(f'{WT}/zvt_feig_terminal/Cargo.toml','a').write('tokio = { version = "1.32.0", features = ["test-util", "io-util"] }\n')
